@@ -1,9 +1,9 @@
-(* Obligation C20/normal_pdf_is_derivative_of_cdf.  Statement as printed by Coq from Inferno.C20.DistProofs; proof by reference.
+(* Obligation C20/normal_pdf_is_derivative_of_cdf.  Statement as printed by Coq from Inferno.C20.DistNormal; proof by reference.
    This file contains nothing else, so the statement cannot be weakened quietly. *)
 From Coq Require Import Reals List ZArith Bool.
 From Coquelicot Require Import Coquelicot.
 From Flocq Require Import Core.Raux.
-From Inferno Require Import Base.Num Base.NumR C20.Model C20.Spec C20.DistProofs.
+From Inferno Require Import Base.Num Base.NumR Gen.Distributions C20.Model C20.Spec C20.DistNormal.
 Import ListNotations.
 Open Scope R_scope.
 Theorem normal_pdf_is_derivative_of_cdf : forall (erf : R -> R) (loc : T RN) (scale : R) (x : R_AbsRing),
@@ -11,5 +11,5 @@ Theorem normal_pdf_is_derivative_of_cdf : forall (erf : R -> R) (loc : T RN) (sc
   0 < scale ->
   is_derive (fun x0 : R_AbsRing => normal_cdf RN erf x0 loc scale) x
     (normal_pdf RN (2 * PI) x loc scale).
-Proof. exact (@Inferno.C20.DistProofs.normal_pdf_is_derivative_of_cdf). Qed.
+Proof. exact (@Inferno.C20.DistNormal.normal_pdf_is_derivative_of_cdf). Qed.
 Print Assumptions normal_pdf_is_derivative_of_cdf.
